@@ -247,7 +247,18 @@ def mutate(rng, ops, nsteps, make_op):
 
 def _mutate(rng, ops, nsteps, make_op):
     ops = list(ops)
-    kind = rng.weighted([("none", 3), ("swap", 2), ("drop", 2), ("dup", 2), ("retarget", 2), ("early_close", 2), ("insert", 1)])
+    kind = rng.weighted([("none", 3), ("swap", 2), ("drop", 2), ("dup", 2), ("retarget", 2), ("early_close", 2), ("insert", 1), ("back", 3)])
+    if kind == "back":
+        # go back: a call that was made for an earlier step is made again after a later step has been started
+        # (at once, or after a few more calls of the later step)
+        tgt = [o[1] if len(o) > 1 and isinstance(o[1], int) else None for o in ops]
+        cands = [(a, b) for a in range(len(ops)) for b in range(a + 1, len(ops))
+                 if tgt[a] is not None and tgt[b] is not None and tgt[b] > tgt[a]]
+        if cands:
+            a, b = rng.choice(cands)
+            ops.insert(b + 1, list(ops[a]))
+            return ops, kind
+        kind = "none"
     if kind == "swap" and len(ops) >= 2:
         j = rng.randint(0, len(ops) - 2)
         ops[j], ops[j + 1] = ops[j + 1], ops[j]
@@ -265,6 +276,88 @@ def _mutate(rng, ops, nsteps, make_op):
     elif kind == "insert":
         ops.insert(rng.randint(0, len(ops)), make_op(rng))
     return ops, kind
+
+
+def guided(rng, draw, first_illegal, is_close, streams, maxlen=14, p_legal=0.85):
+    """Model-guided random walk: most of the time the next call is one the reference model accepts in the state
+    reached so far (so the walk gets deep into the protocol, through every way of ending a stream), now and then
+    it is an arbitrary call; the history ends with the first call the model rejects or with a close call."""
+    ops = []
+    for _ in range(maxlen):
+        cands = [near(rng, draw(rng), ops, streams) for _ in range(6)]
+        legal = [c for c in cands if first_illegal(ops + [c]) is None]
+        ops.append(rng.choice(legal) if legal and rng.chance(p_legal) else rng.choice(cands))
+        if first_illegal(ops) is not None or is_close(ops[-1]):
+            break
+    return ops
+
+
+def near(rng, op, ops, streams):
+    """Three times out of four a drawn call is re-aimed at a step next to the one the history has reached (the last
+    targeted step, one before or one or two after): out-of-order calls that matter are the near misses."""
+    if len(op) < 2 or not isinstance(op[1], int) or not rng.chance(0.75):
+        return op
+    last = next((o[1] for o in reversed(ops) if len(o) > 1 and isinstance(o[1], int)), 0)
+    op = list(op)
+    op[1] = min(len(streams) - 1, max(0, last + rng.choice([-1, -1, 0, 0, 1, 1, 2])))
+    if not streams[op[1]] and op[0] in ("RB", "WB", "E"):
+        op = ["R1" if op[0] == "RB" else "W1", op[1]]      # a step that is not a stream has only the plain call
+    return op
+
+
+def cpp_reader_first_illegal(streams, counts):
+    def f(ops):
+        verdicts, _ = cpp_reader_model(streams, counts, ops)
+        for j, v in enumerate(verdicts):
+            if v is False:
+                return j
+        return None
+    return f
+
+
+def draw_cpp_reader(streams):
+    n = len(streams)
+    def d(r):
+        if r.chance(0.12):
+            return ["CR"]
+        k = r.randrange(n)
+        if streams[k] and r.chance(0.5):
+            return ["RB", k, r.choice([1, 2, 3, 5])]
+        return ["R1", k]
+    return d
+
+
+def draw_cpp_writer(streams):
+    n = len(streams)
+    def d(r):
+        if r.chance(0.12):
+            return ["CW"]
+        k = r.randrange(n)
+        if streams[k]:
+            return r.choice([["W1", k], ["WB", k, r.randint(0, 3)], ["E", k], ["E", k]])
+        return ["W1", k]
+    return d
+
+
+def draw_py_writer(streams):
+    n = len(streams)
+    return lambda r: ["C"] if r.chance(0.12) else ["W", r.randrange(n)]
+
+
+def draw_py_reader(streams):
+    n = len(streams)
+    def d(r):
+        x = r.random()
+        if x < 0.1:
+            return ["C"]
+        if x < 0.55:
+            return ["R", r.randrange(n)]
+        if x < 0.75:
+            return ["D"]
+        if x < 0.9:
+            return ["N", r.randint(0, 3)]
+        return ["A"]
+    return d
 
 
 def legal_cpp_writer(rng, streams):
@@ -430,7 +523,7 @@ def doc(model, proto, ctx, api, ops, counts, detail):
 def model_task(task, ybin, root):
     seed, i, quick = task["seed"], task["i"], task["tier"] == "quick"
     rng = M.derive(seed, "c07", i)
-    want_cpp = (i % 3 == 0)
+    want_cpp = (i % 2 == 0)
     pkg = make_package(i, rng.fork("pkg"), 12 if want_cpp else 16)
     model = P.PyModel(pkg, ybin, root, want_cpp=want_cpp, cpp_opts=C.CPP_OPTS)
     stats, viols, cases = {"models_with_cpp": 1 if want_cpp else 0}, [], []
@@ -443,7 +536,7 @@ def model_task(task, ybin, root):
                 stats["generated_cpp_did_not_compile(discarded)"] = 1
         env, ns = model.env, pkg.namespace
         codec = R.Codec(env)
-        H = 6 if quick else 30
+        H = 12 if quick else 40
         for proto in model.protocols():
             streams = [s for _, _, s in proto.steps]
             n = len(streams)
@@ -455,7 +548,10 @@ def model_task(task, ybin, root):
             # ---- python writer / reader
             for h in range(H):
                 hr = pr.fork("pw", h)
-                ops, mk = mutate(hr, legal_py_writer(hr, streams), n, lambda r: ["W", r.randrange(n)] if r.chance(0.8) else ["C"])
+                if h % 2 == 1:
+                    ops, mk = until_close(guided(hr, draw_py_writer(streams), lambda o: py_writer_model(streams, o), lambda o: o[0] == "C", streams)), "guided"
+                else:
+                    ops, mk = mutate(hr, legal_py_writer(hr, streams), n, lambda r: ["W", r.randrange(n)] if r.chance(0.8) else ["C"])
                 exp = py_writer_model(streams, ops)
                 got, exc = run_py_writer(model, proto, pyvals, ops)
                 stats["runs"] = stats.get("runs", 0) + 1
@@ -465,7 +561,11 @@ def model_task(task, ybin, root):
                 if why:
                     viols.append(({"class": "step_order_not_enforced" if (exp is not None and (got is None or got > exp)) else "legal_history_rejected", "api": "python_writer"},
                                   doc(model, proto, task, "python_writer", ops, counts, why)))
-                ops, mk = mutate(hr.fork("r"), legal_py_reader(hr.fork("r"), streams), n, lambda r: ["R", r.randrange(n)] if r.chance(0.6) else (["D"] if r.chance(0.4) else (["A"] if r.chance(0.5) else ["C"])))
+                if h % 2 == 1:
+                    ops, mk2 = until_close(guided(hr.fork("r"), draw_py_reader(streams), lambda o: py_reader_model(streams, counts, o), lambda o: o[0] == "C", streams)), "guided"
+                else:
+                    ops, mk2 = mutate(hr.fork("r"), legal_py_reader(hr.fork("r"), streams), n, lambda r: ["R", r.randrange(n)] if r.chance(0.6) else (["D"] if r.chance(0.4) else (["A"] if r.chance(0.5) else ["C"])))
+                stats["mut_" + mk2] = stats.get("mut_" + mk2, 0) + 1
                 exp = py_reader_model(streams, counts, ops)
                 got, exc = run_py_reader(model, proto, data, ops)
                 stats["runs"] += 1
@@ -491,14 +591,22 @@ def model_task(task, ybin, root):
             if cm is not None:
                 runs, meta = [], []
                 steps = cm.protos[proto.name]
-                for h in range(H):
+                for h in range(H * 4):          # C++ histories cost microseconds each inside one harness process
                     hr = pr.fork("cw", h)
-                    ops, mk = mutate(hr, legal_cpp_writer(hr, streams), n, lambda r: (["W1", r.randrange(n)] if r.chance(0.6) else (["E", r.randrange(n)] if r.chance(0.6) else ["CW"])))
+                    if h % 2 == 1:
+                        ops, mk = until_close(guided(hr, draw_cpp_writer(streams), lambda o: cpp_writer_model(streams, o), lambda o: o[0] == "CW", streams)), "guided"
+                    else:
+                        ops, mk = mutate(hr, legal_cpp_writer(hr, streams), n, lambda r: (["W1", r.randrange(n)] if r.chance(0.6) else (["E", r.randrange(n)] if r.chance(0.6) else ["CW"])))
+                    stats["mut_" + mk] = stats.get("mut_" + mk, 0) + 1
                     ops = [o for o in ops if not (o[0] in ("WB", "E") and not streams[o[1]])]   # the harness has no batch/End call for non-stream steps
                     exp = cpp_writer_model(streams, ops)
                     runs.append({"proto": proto.name, "op": "script", "input": 0, "script": [["mkW", "binary"]] + ops})
                     meta.append(("cpp_writer", ops, exp, None))
-                    ops, mk = mutate(hr.fork("r"), legal_cpp_reader(hr.fork("r"), streams, counts), n, lambda r: (["R1", r.randrange(n)] if r.chance(0.7) else ["CR"]))
+                    if h % 2 == 1:
+                        ops, mk = until_close(guided(hr.fork("r"), draw_cpp_reader(streams), cpp_reader_first_illegal(streams, counts), lambda o: o[0] == "CR", streams)), "guided"
+                    else:
+                        ops, mk = mutate(hr.fork("r"), legal_cpp_reader(hr.fork("r"), streams, counts), n, lambda r: (["R1", r.randrange(n)] if r.chance(0.7) else ["CR"]))
+                    stats["mut_" + mk] = stats.get("mut_" + mk, 0) + 1
                     ops = [o for o in ops if not (o[0] == "RB" and not streams[o[1]])]
                     verdicts, expect = cpp_reader_model(streams, counts, ops)
                     runs.append({"proto": proto.name, "op": "script", "input": 0, "script": [["mkR", "binary"]] + ops})
@@ -598,7 +706,7 @@ def main():
                assumptions=["a C++ stream step is left when its end has been observed: a single read returned false or a batch read came back short of its capacity",
                             "python: every step needs at least one write call; a stream's iterable must be drained before the next read; close() ends a trailing stream"],
                replay_fn=replay_doc, quick_budget=140,
-               fault_keys=("py_reader_early_eof", "mut_swap", "mut_drop", "mut_dup", "mut_retarget", "mut_early_close", "mut_insert", "mut_none"))
+               fault_keys=("py_reader_early_eof", "cpp_reader_early_eof", "mut_swap", "mut_drop", "mut_dup", "mut_retarget", "mut_early_close", "mut_insert", "mut_back", "mut_guided", "mut_none"))
 
 
 if __name__ == "__main__":
